@@ -113,6 +113,22 @@ def r10_3(ck, F):
               "missing credit without wait does not produce TooManyPendingConnectionRequests", b.loc(0))
 
 
+def r10_7(ck, F):
+    ck.rule("R10.7", "every accepted OpenPort frame gets a Request: in the OpenPort arm of handle_received_msg Request::new "
+            "(which also arms the drop watcher that answers Rejected) lies on every path to Ok — also when no listener "
+            "exists any more",
+            "listener dropped, then a connect that was already on the wire arrives: nobody answers, the client's Connect "
+            "never resolves and the outstanding entry keeps the dispatcher from terminating", floor=1)
+    hr = F.main_body(HANDLE_RECEIVED)
+    arms, sw, _ = event_arms(hr, MUX_MSG)
+    s_, tb, region = arms["OpenPort"]
+    reqs = {bb for bb, t in hr.calls("chmux::listener::Request::new") if bb in region}
+    oks = [bb for bb, i, v in hr.result_stores("Ok")]
+    p = hr.find_path([tb], oks, avoid=reqs)
+    ck.expect(bool(reqs) and p is None, "handle_received_msg#OpenPort-always-request", "a Request is created on every accepting path",
+              "an OpenPort frame can be accepted without creating a Request (no one will answer it)", hr.loc(tb))
+
+
 def r10_5(ck, F):
     ck.rule("R10.5", "`sent` notification: in handle_event(ConnectReq) the binding that owns sent_tx is dropped only after "
             "Permit::send(OpenPort) on the accepting path",
@@ -184,7 +200,7 @@ def r10_6(ck, F):
 
 def run(ck, F):
     import c08
-    for r in (r10_1, r10_2, r10_3, r10_5, r10_6):
+    for r in (r10_1, r10_2, r10_3, r10_5, r10_6, r10_7):
         ck.run_rule(r)
     # shared clauses
     ck.run_rule(c08.r08_3)       # R10.4 = listener queue bound
